@@ -127,7 +127,10 @@ class StubAD:
 
     def predict(self, X):
         X = np.asarray(X, float)
-        return np.sin(X @ self.A), np.repeat((np.eye(self.m) * self.sd**2)[None], len(X), 0)
+        cov = np.eye(self.m) * self.sd**2
+        if getattr(self, "flat", False):
+            cov[0, 0] = 0.0  # one objective known exactly: a zero-width side
+        return np.sin(X @ self.A), np.repeat(cov[None], len(X), 0)
 
     def get_lengthscale_and_var(self):
         return self.ls[:, 0], self.var
@@ -166,6 +169,12 @@ def direct_sequence(mon, rng):
             idx = [int(i) for i in rng.choice(len(ds.points), size=min(3, len(ds.points)), replace=False)]
             ds.update(model, np.array(float(10 ** rng.uniform(-1, 1))), idx)
         parent = int(rng.choice(leaves))
+        if rng.random() < 0.4:
+            model.flat = bool(rng.random() < 0.5)
+            model.sd = 10 ** rng.uniform(-2, 0)
+            ds.update(model, np.array(float(10 ** rng.uniform(-1, 1))), [parent])  # the parent's region is a real (possibly flat) box
+            model.flat = False
+            mon.count("refines_of_updated_parent")
         before = snapshot_parent(ds, parent)
         try:
             new_idx = ds.refine_design(parent)
